@@ -17,7 +17,7 @@ func init() { register("C19", checkC19) }
 func checkC19(c *an.Ctx) {
 	c.Rule("C19.1", "raw (E5/E10): rawOutputDecorator.Write calls the underlying writer exactly once with its argument itself and returns that call's results; no Write in pkg/output modifies or retains the caller's buffer")
 	c.Rule("C19.2", "one write per line (E10): every path of lineWriter.Write makes exactly one call writing to its destination, carrying the task name, \": \", the stripped payload and the terminator; the prefixed and raw decorators share no mutable package-level state")
-	c.Rule("C19.3", "all bytes are forwarded (E3): in the prefixed Write every consumed line is written to the line buffer before the input advances by exactly what the scanner consumed, the remainder is written after the loop, a nil-error return reports len(p), and WriteFooter flushes the buffer")
+	c.Rule("C19.3", "all bytes are forwarded (E3): in the prefixed Write every consumed line is written to the line buffer before the input advances by exactly what the scanner consumed, the remainder is written after the loop, a nil-error return reports len(p), and WriteFooter flushes the buffer; the scanner is bufio.ScanLines (library contract) or a (line, rest) cutter of the module recognised by shape")
 	c.Rule("C19.4", "Finish without Start (E8/E9): NewTaskOutput covers every exported Format constant; for every decorator, a field assigned only under WriteHeader and dereferenced under WriteFooter is nil-tested first (Run always finishes the output but starts it only before the commands); an index or slice bound taken from sort.Search on a list of started tasks is tested against the length first (the result is the length when the task was never added)")
 	c.Rule("C19.5", "presentation only (E4): pkg/output never writes the task's result fields and never reaches a function that reads the captured log destructively (a bytes.Buffer handed to a reader is drained); in Run the output format is consumed only by NewTaskOutput; Finish's error is logged, never returned")
 	c.Rule("C19.6", "lock order (E8): no function of pkg/output calls a lock-taking method of a shared spinner while holding a mutex that one of the spinner's callbacks (run under the spinner's lock) acquires")
@@ -248,8 +248,22 @@ func prefixedForwarding(c *an.Ctx, rule string) {
 			scan, _ = ci.(*ssa.Call)
 		}
 	}
+	// … or a hand-written cutter: a function of the module that takes the remaining input and returns
+	// (line, rest), both sub-slices of it, rest starting right behind the line's end-of-line marker
+	cutter := false
 	if scan == nil {
-		c.Und(rule, an.Short(w)+":scanner", w.Pos(), "the prefixed Write does not split its input with bufio.ScanLines: line forwarding cannot be established by this rule")
+		an.EachInstr(w, func(in ssa.Instruction) {
+			call, ok := in.(*ssa.Call)
+			if !ok || scan != nil {
+				return
+			}
+			if callee := call.Call.StaticCallee(); callee != nil && an.InModule(callee) && isLineCutter(callee) {
+				scan, cutter = call, true
+			}
+		})
+	}
+	if scan == nil {
+		c.Und(rule, an.Short(w)+":scanner", w.Pos(), "the prefixed Write does not split its input with bufio.ScanLines (or a cutter of the module with the same contract): line forwarding cannot be established by this rule")
 		return
 	}
 	var site ssa.Instruction = scan
@@ -310,6 +324,10 @@ func prefixedForwarding(c *an.Ctx, rule string) {
 	}
 	adv := extractOf(scan, 0)
 	line := extractOf(scan, 1)
+	var rest []ssa.Value
+	if cutter {
+		adv, line, rest = nil, extractOf(scan, 0), extractOf(scan, 1)
+	}
 	isOneOf := func(v ssa.Value, set []ssa.Value) bool {
 		for _, s := range set {
 			if v == s {
@@ -361,8 +379,15 @@ func prefixedForwarding(c *an.Ctx, rule string) {
 			}
 			sl, ok := e.(*ssa.Slice)
 			good := ok && sl.X == ssa.Value(rem) && sl.High == nil && sl.Low != nil && isOneOf(sl.Low, adv)
+			if cutter {
+				// the next pass scans exactly what the cutter left
+				good = isOneOf(e, rest)
+			}
 			c.Check(good, rule, an.Short(w)+":advance", rem.Pos(), "the input advances by exactly what the scanner consumed", "after a line the input does not advance by the scanner's advance: "+an.Prov(e))
 		}
+	case remObj != nil && cutter:
+		c.Und(rule, an.Short(w)+":remainder", scan.Pos(), "a hand-written cutter driven through a cursor object is not covered by this rule")
+		return
 	case remObj != nil:
 		// every store to the cursor's field: the one before the loop puts the whole argument there, the others
 		// advance it by exactly what the scanner consumed
@@ -1295,4 +1320,219 @@ func writerContract(c *an.Ctx, rule string) {
 	if n == 0 {
 		c.Und(rule, "module:Write-methods", token.NoPos, "no Write method found in the module")
 	}
+}
+
+// isLineCutter recognises a hand-written replacement of bufio.ScanLines by its shape: one []byte parameter
+// data, results (line, rest []byte), i = bytes.IndexByte(data, '\n'), and
+//
+//	line ∈ { data[:i], data, one of those without its last byte }      rest ∈ { data[i+1:], data[len(data):] }
+//
+// so that line and rest are sub-slices of data, nothing of data but the end-of-line marker lies between
+// them, and rest is empty when there is no marker (which is what ends the caller's loop).
+func isLineCutter(fn *ssa.Function) bool {
+	if fn.Blocks == nil || len(fn.Params) != 1 || fn.Signature.Results().Len() != 2 {
+		return false
+	}
+	isBytes := func(t types.Type) bool {
+		sl, ok := t.Underlying().(*types.Slice)
+		if !ok {
+			return false
+		}
+		b, ok := sl.Elem().Underlying().(*types.Basic)
+		return ok && b.Kind() == types.Byte
+	}
+	data := fn.Params[0]
+	if !isBytes(data.Type()) || !isBytes(fn.Signature.Results().At(0).Type()) || !isBytes(fn.Signature.Results().At(1).Type()) {
+		return false
+	}
+	var idx ssa.Value
+	for _, ci := range an.CallsIn(fn, "bytes.IndexByte") {
+		call, ok := ci.(*ssa.Call)
+		if !ok || !an.SameValue(call.Call.Args[0], data) {
+			continue
+		}
+		if k, ok := an.ConstInt(call.Call.Args[1]); ok && k == '\n' {
+			idx = call
+		}
+	}
+	if idx == nil {
+		return false
+	}
+	isZeroOrNil := func(v ssa.Value) bool {
+		if v == nil {
+			return true
+		}
+		k, ok := an.ConstInt(v)
+		return ok && k == 0
+	}
+	isLenOf := func(v ssa.Value, of func(ssa.Value) bool) bool {
+		call, ok := v.(*ssa.Call)
+		if !ok {
+			return false
+		}
+		b, ok := call.Call.Value.(*ssa.Builtin)
+		return ok && b.Name() == "len" && of(call.Call.Args[0])
+	}
+	isData := func(v ssa.Value) bool { return v == ssa.Value(data) }
+	// the whole line (before an optional trailing byte is dropped)
+	var wholeLine func(v ssa.Value, depth int) bool
+	wholeLine = func(v ssa.Value, depth int) bool {
+		if depth > 4 {
+			return false
+		}
+		switch x := v.(type) {
+		case *ssa.Parameter:
+			return isData(x)
+		case *ssa.Slice:
+			return isData(x.X) && isZeroOrNil(x.Low) && x.High == idx && x.Max == nil
+		case *ssa.Phi:
+			for _, e := range x.Edges {
+				if !wholeLine(e, depth+1) {
+					return false
+				}
+			}
+			return len(x.Edges) > 0
+		}
+		return false
+	}
+	var lineOK func(v ssa.Value, depth int) bool
+	lineOK = func(v ssa.Value, depth int) bool {
+		if depth > 4 {
+			return false
+		}
+		if wholeLine(v, depth) {
+			return true
+		}
+		switch x := v.(type) {
+		case *ssa.Slice:
+			// line[:len(line)-1]: the carriage return dropped
+			if !isZeroOrNil(x.Low) || x.Max != nil || !wholeLine(x.X, depth+1) {
+				return false
+			}
+			bo, ok := x.High.(*ssa.BinOp)
+			if !ok || bo.Op != token.SUB {
+				return false
+			}
+			if k, ok := an.ConstInt(bo.Y); !ok || k != 1 {
+				return false
+			}
+			return isLenOf(bo.X, func(a ssa.Value) bool { return a == x.X })
+		case *ssa.Phi:
+			for _, e := range x.Edges {
+				if !lineOK(e, depth+1) {
+					return false
+				}
+			}
+			return len(x.Edges) > 0
+		}
+		return false
+	}
+	var restOK func(v ssa.Value, depth int) bool
+	restOK = func(v ssa.Value, depth int) bool {
+		if depth > 4 {
+			return false
+		}
+		switch x := v.(type) {
+		case *ssa.Slice:
+			if !isData(x.X) || x.High != nil || x.Max != nil || x.Low == nil {
+				return false
+			}
+			if isLenOf(x.Low, isData) {
+				return true
+			}
+			bo, ok := x.Low.(*ssa.BinOp)
+			if !ok || bo.Op != token.ADD || bo.X != idx {
+				return false
+			}
+			k, ok := an.ConstInt(bo.Y)
+			return ok && k == 1
+		case *ssa.Phi:
+			for _, e := range x.Edges {
+				if !restOK(e, depth+1) {
+					return false
+				}
+			}
+			return len(x.Edges) > 0
+		}
+		return false
+	}
+	// line and rest belong together: data[:i] goes with data[i+1:], the whole of data with the empty rest
+	// (two φ-nodes of one block are matched edge by edge)
+	kindOf := func(v ssa.Value) string {
+		switch x := v.(type) {
+		case *ssa.Parameter:
+			return "all"
+		case *ssa.Slice:
+			if x.High == idx {
+				return "cut" // data[:i]
+			}
+			if x.Low != nil && isLenOf(x.Low, isData) {
+				return "all" // data[len(data):]
+			}
+			if x.Low != nil {
+				return "cut" // data[i+1:]
+			}
+		}
+		return "?"
+	}
+	var paired func(l, r ssa.Value, depth int) bool
+	paired = func(l, r ssa.Value, depth int) bool {
+		if depth > 4 {
+			return false
+		}
+		pl, lphi := l.(*ssa.Phi)
+		pr, rphi := r.(*ssa.Phi)
+		switch {
+		case lphi && rphi && pl.Block() == pr.Block():
+			for i := range pl.Edges {
+				if !paired(pl.Edges[i], pr.Edges[i], depth+1) {
+					return false
+				}
+			}
+			return true
+		case lphi || rphi:
+			return false
+		}
+		return kindOf(l) != "?" && kindOf(l) == kindOf(r)
+	}
+	// the whole-line values a returned line is made of (the carriage-return step undone)
+	var roots func(v ssa.Value, depth int, out *[]ssa.Value)
+	roots = func(v ssa.Value, depth int, out *[]ssa.Value) {
+		if depth > 4 {
+			return
+		}
+		if wholeLine(v, 0) {
+			*out = append(*out, v)
+			return
+		}
+		switch x := v.(type) {
+		case *ssa.Slice:
+			roots(x.X, depth+1, out)
+		case *ssa.Phi:
+			for _, e := range x.Edges {
+				roots(e, depth+1, out)
+			}
+		}
+	}
+	rets := an.Returns(fn)
+	if len(rets) == 0 {
+		return false
+	}
+	for _, ret := range rets {
+		l, r := an.RetVal(ret, 0), an.RetVal(ret, 1)
+		if !lineOK(l, 0) || !restOK(r, 0) {
+			return false
+		}
+		var ls []ssa.Value
+		roots(l, 0, &ls)
+		if len(ls) == 0 {
+			return false
+		}
+		for _, lw := range ls {
+			if !paired(lw, r, 0) {
+				return false
+			}
+		}
+	}
+	return true
 }
